@@ -342,6 +342,7 @@ fn check_capture_chain(p: &Pos, h: &ZobristHasher, depth: usize) -> Option<Strin
 }
 
 fn hunt_positions(prop: &str, focus: &str, seed: u64, budget: f64, stats: bool) -> i32 {
+    std::panic::set_hook(Box::new(|_| {}));
     let h = ZobristHasher::create_zobrist_hasher();
     let mut src = Source { rng: Rng(seed.wrapping_mul(0x9E3779B97F4A7C15) | 1), idx: 0, walk: None };
     let t0 = Instant::now();
@@ -352,9 +353,11 @@ fn hunt_positions(prop: &str, focus: &str, seed: u64, budget: f64, stats: bool) 
         if !any_placement && !p.is_legal_position() { continue; }
         n += 1;
         if stats { distinct.insert(p.clone()); }
-        let mut r = check_pos(prop, focus, &p, &h);
-        if r.is_none() && prop == "C13" { r = check_capture_chain(&p, &h, 1); }
-        if let Some(d) = r {
+        let mut r = match std::panic::catch_unwind(std::panic::AssertUnwindSafe(|| {
+            let mut r = check_pos(prop, focus, &p, &h);
+            if r.is_none() && prop == "C13" { r = check_capture_chain(&p, &h, 1); }
+            r })) { Ok(r) => r, Err(_) => Some("the engine panicked on this position".to_string()) };
+        if let Some(d) = r.take() {
             println!("CASE {{\"kind\":\"position\",\"fen\":\"{}\",\"observed\":\"{}\",\"input_id\":\"{}\"}}", p.fen(), jesc(&d), p.fen());
             return 1;
         }
